@@ -60,6 +60,7 @@ import (
 	"context"
 	"encoding/json"
 	"fmt"
+	"reflect"
 	"strconv"
 	"sync"
 
@@ -164,7 +165,8 @@ func Record(controller, method string, args ...any) MethodScript {
 	for _, a := range args {
 		b, err := json.Marshal(a)
 		if err != nil {
-			b, _ = json.Marshal("!unmarshalable:" + fmt.Sprint(a))
+			// e.g. NaN / Inf floats: record the printed (dereferenced) value instead
+			b, _ = json.Marshal("!unmarshalable:" + fmt.Sprint(reflect.Indirect(reflect.ValueOf(a))))
 		}
 		c.Args = append(c.Args, b)
 	}
@@ -313,6 +315,7 @@ func regFiber(name string, reg func(*fiber.App)) {
 
 func execute(rq request) (res result) {
 	res.Headers = map[string][]string{}
+	rec.Reset(nil)
 	fail := func(s string) result {
 		res.Panic = &s
 		res.Calls, res.Auth = rec.Snapshot()
